@@ -58,8 +58,65 @@ impl Prop for C07 {
         tier.pick(40_000, 2_000_000)
     }
 
-    fn generate(r: &mut Rng, _tier: Tier, _idx: u64) -> Scn {
+    fn generate(r: &mut Rng, tier: Tier, _idx: u64) -> Scn {
         let kind = *r.pick(&Kind::ALL);
+        // population scenario, one in three hundred: thousands of connections open at once on one instance, a third
+        // of them ended by a reset that carries data, the others exchanging their messages afterwards. Structures
+        // keyed by hashes or partial identities only meet coincidences at this scale.
+        if r.chance(1, 300) {
+            let n = r.urange(1000, tier.pick(2500, 6000));
+            let mut seen = std::collections::BTreeSet::new();
+            let mut eps = vec![];
+            while eps.len() < n {
+                let c = crate::pkt::Endpoint::v4(10, r.u8(), r.u8(), 1 + r.below(250) as u8, 1024 + r.below(60000) as u16);
+                let s = crate::pkt::Endpoint::v4(172, 16 + r.below(4) as u8, r.u8(), 1 + r.below(250) as u8, *r.pick(&[80u16, 8080, 443]));
+                if seen.insert((c, s)) {
+                    eps.push((c, s));
+                }
+            }
+            let o = ConnOpts { v6: false, framing: Framing::Ethernet, max_parts: 2, gap_lo: 1_000, gap_hi: 5_000, tls_single_segment: true };
+            let ck = match kind {
+                Kind::Tcp => ConnKind::TcpOnly,
+                Kind::Tls => ConnKind::Tls,
+                _ => ConnKind::Http1,
+            };
+            let mut conns: Vec<Conn> = eps.iter().map(|(c, s)| conn::build(r, ck, *c, *s, &o)).collect();
+            let mut closer = vec![false; n];
+            for (i, c) in conns.iter_mut().enumerate() {
+                if r.chance(1, 3) {
+                    // ends with a reset riding on its first data segment
+                    if let Some(k) = c.steps.iter().position(|st| st.seg.src == c.client && !st.seg.payload.is_empty()) {
+                        c.steps.truncate(k + 1);
+                        c.steps[k].seg.flags |= crate::pkt::RST;
+                        closer[i] = true;
+                    }
+                }
+            }
+            // order: every handshake, then the closers, then everything else round-robin
+            let mut order = vec![];
+            let hs: Vec<usize> = conns.iter().map(|c| c.steps.len().min(3)).collect();
+            for k in 0..3 {
+                for (i, h) in hs.iter().enumerate() {
+                    if k < *h {
+                        order.push(i);
+                    }
+                }
+            }
+            for (i, c) in conns.iter().enumerate() {
+                if closer[i] {
+                    order.extend(std::iter::repeat(i).take(c.steps.len() - hs[i]));
+                }
+            }
+            let maxlen = conns.iter().map(|c| c.steps.len()).max().unwrap_or(0);
+            for k in 3..maxlen {
+                for (i, c) in conns.iter().enumerate() {
+                    if !closer[i] && k < c.steps.len() {
+                        order.push(i);
+                    }
+                }
+            }
+            return Scn { kind, cap: 2 * n + 16, conns, order, via_loop: false };
+        }
         let n = r.urange(2, 8);
         let v6 = r.chance(1, 5);
         let eps = conn::endpoints(r, n, v6);
@@ -146,7 +203,10 @@ impl Prop for C07 {
                     } else {
                         ("altered", kinds_i.first().cloned().unwrap_or("?"))
                     };
-                    let others: Vec<String> = s.conns.iter().enumerate().filter(|(j, _)| *j != ci).map(|(_, c)| format!("{:?}", c.kind)).collect();
+                    let mut others: Vec<String> = s.conns.iter().enumerate().filter(|(j, _)| *j != ci).take(9).map(|(_, c)| format!("{:?}", c.kind)).collect();
+                    if s.conns.len() > 10 {
+                        others.push(format!("... {} connections in all", s.conns.len()));
+                    }
                     let hostile = s.conns.iter().any(|c| c.kind == ConnKind::Http2Hostile);
                     let key = format!("{}:{}{}", s.kind.name(), what, if hostile && what.starts_with("http") && s.conns[ci].kind == ConnKind::Http2 { ":h2-after-hostile-hpack" } else { "" });
                     return Err(Violation::new(
@@ -171,12 +231,37 @@ impl Prop for C07 {
             }
         }
         st.probe_n("connections_producing_results", producing);
+        if s.conns.len() >= 1000 {
+            st.fault_n("population_of_simultaneously_open_connections", s.conns.len() as u64);
+        }
         st.nontrivial = producing >= 2 && switches >= 2;
         Ok(())
     }
 
     fn shrink(s: &Scn) -> Vec<Scn> {
         let mut out = vec![];
+        let drop_set = |s: &Scn, gone: &dyn Fn(usize) -> bool| -> Scn {
+            let mut x = s.clone();
+            let mut map = vec![usize::MAX; s.conns.len()];
+            let mut k = 0;
+            for i in 0..s.conns.len() {
+                if !gone(i) {
+                    map[i] = k;
+                    k += 1;
+                }
+            }
+            x.conns = s.conns.iter().enumerate().filter(|(i, _)| !gone(*i)).map(|(_, c)| c.clone()).collect();
+            x.order = s.order.iter().filter(|c| map[**c] != usize::MAX).map(|c| map[*c]).collect();
+            x
+        };
+        if s.conns.len() > 24 {
+            // a population: drop an eighth of the connections at a time
+            let n = s.conns.len();
+            for k in 0..8 {
+                out.push(drop_set(s, &|i| i * 8 / n == k));
+            }
+            return out;
+        }
         // drop one connection
         if s.conns.len() > 2 {
             for i in (0..s.conns.len()).rev() {
